@@ -101,8 +101,8 @@ var vC06Styles = []vC06Style{
 	{dir: 2, owner: 0, ttl: 1, unit: 3, class: 0, tail: 2},
 	{dir: 3, owner: 3, ttl: 0, class: 1, paren: 1, tail: 1},
 	{owner: 4, ttl: 0, class: 0},
-	{dir: 1, ttlkw: 1, owner: 1, ttl: 2, unit: 5, class: 2, order: 1, tcase: 1},
 	{owner: 0, ttl: 2, class: 1, esc: 1},
+	{dir: 1, ttlkw: 1, owner: 1, ttl: 2, unit: 5, class: 2, order: 1, tcase: 1},
 	{owner: 2, ttl: 1, unit: 4, class: 0, paren: 1, blank: 1},
 	{dir: 2, owner: 4, ttl: 2, unit: 6, class: 1, tail: 1},
 	{dir: 1, ttlkw: 2, owner: 0, ttl: 3, unit: 1, class: 0, tcase: 1, blank: 1},
